@@ -52,6 +52,25 @@ impl Check for C16 {
             ..Default::default()
         };
         let mut info = dispatch(case, &obs, &ctx.scratch, ctx.tier.pick(6 << 20, 32 << 20))?;
+        // "... and after any recovered crash": a quarter of the cases additionally crash their last
+        // operation at every event boundary; each recovered image is decoded with the same predicates.
+        if case.salt % 8 == 0 && case.steps.len() >= 2 && info.discarded.is_none() {
+            let fc = crate::crash::FaultCase { hist: case.clone(), choice_seed: case.salt };
+            let fp = crate::crash::FaultParams {
+                mode: crate::crash::Mode::Crash,
+                max_images: ctx.tier.pick(48, 300),
+                nested: 1,
+                max_nested_images: 8,
+                randoms: 1,
+            };
+            let r = match case.cfg.hasher {
+                crate::reftrie::HasherKind::Blake3 => crate::crash::run_fault_case::<crate::driver::B3>(&fc, &fp, &ctx.scratch),
+                crate::reftrie::HasherKind::Sha2 => crate::crash::run_fault_case::<crate::driver::S2>(&fc, &fp, &ctx.scratch),
+            };
+            let ci = r.map_err(|v| Violation { step: v.step, msg: format!("[recovered crash image] {}", v.msg) })?;
+            info.add("recovered_images_decoded", ci.labels.get("images_verified").copied().unwrap_or(0));
+            info.bump("cases_with_crash_recovery");
+        }
         let l = |k: &str| info.labels.get(k).copied().unwrap_or(0);
         info.nontrivial = info.discarded.is_none() && l("decoded_nontrivial_images") >= 1;
         Ok(info)
